@@ -29,7 +29,7 @@ structure ELink (W : Type) where
   dst : Option Int
   w : W
   recur : Bool
-deriving DecidableEq, Repr, BEq
+deriving DecidableEq, Repr
 
 def elinkOfGene (x : Gene W) : ELink W := ⟨some x.src, some x.dst, x.w, x.recur⟩
 
@@ -53,7 +53,7 @@ def dirEdges (g : Genome W) : List (ELink W) :=
 def nodeTriples (ns : List (NNodeS W)) : List (Int × Kind × Nat) := ns.map fun nd => (nd.id, nd.kind, nd.act)
 
 section
-variable [BEq W]
+variable [DecidableEq W]
 
 /-- the dumped network is the expression of the genome -/
 def expresses (g : Genome W) (netId : Int) (net : Net W) : Bool :=
